@@ -978,9 +978,9 @@ pub fn c19_ops(r: &mut Rng, t: u32, n: usize) -> Vec<Value> {
             }
             9 => {
                 // 256-bit paths: (10^20 + 2k + 1) * 5 * 10^20 at 11 + 12 fractional digits (tie in the 19th place), and a wide quotient
-                let x = p10(20) + 2 * r.below(50) as i128 + 1;
+                let x = p10(21) + 2 * r.below(50) as i128 + 1;      // odd: x * 0.5 is a tie in the 19th place, the product needs 256 bits
                 if r.bool() {
-                    v.push(bin(t, if r.bool() { "mul" } else { "mul_rounded" }, dj(neg1!(r, x), 11), "dec", dj(5 * p10(20), 12), "dec", 18, 0));
+                    v.push(bin(t, if r.bool() { "mul" } else { "mul_rounded" }, dj(neg1!(r, x), 18), "dec", dj(5 * p10(17), 18), "dec", 18, 0));
                 } else {
                     let (a, b) = tie_construct(r, 30);
                     v.push(bin(t, "div_rounded", dj(neg1!(r, a), 0), "dec", dj(b, 12), "dec", 18, 0));
